@@ -188,56 +188,131 @@ Qed.
 Lemma clear_ref_mut_flat p : match clear_ref_mut p with Some p' => flat_pat p' = flat_pat p | None => flat_pat p = FAbort end.
 Proof. destruct p; reflexivity. Qed.
 
+Lemma clear_ref_mut_ident p p' : clear_ref_mut p = Some p' -> is_ident p' = is_ident p.
+Proof. destruct p; cbn; intros E; inversion E; reflexivity. Qed.
+
+Lemma smem_In x l : smem x l = true <-> In x l.
+Proof.
+  unfold smem. rewrite existsb_exists. split.
+  - intros (y & Hy & E). apply String.eqb_eq in E. subst. exact Hy.
+  - intros H. exists x. split; [exact H|apply String.eqb_refl].
+Qed.
+Lemma smem_false x l : smem x l = false <-> ~ In x l.
+Proof. rewrite <- smem_In. destruct (smem x l); split; congruence. Qed.
+
 Section Args.
 Context {T : Type}.
 Notation params := (list (pat * T)).
+Definition names (ps : params) : list string := map (fun q => spec_name (fst q)) ps.
+(* a flattened (non-identifier) pattern does not produce a name the generated code binds itself *)
+Definition no_flat_reserved (ps : params) : Prop :=
+  Forall (fun q => is_ident (fst q) = false -> ~ In (spec_name (fst q)) reserved_flat) ps.
 
 (* stripping `ref` / `mut` first never changes what the flattening produces *)
-Theorem live_args_flat : forall ps : params, live_args ps = flat_arguments ps.
+Lemma clean_flat_from : forall (ps ps' : params) seen, clean_pats ps = Some ps' -> flat_args_from seen ps' = flat_args_from seen ps.
 Proof.
-  unfold live_args. induction ps as [|[p t] r IH]; [reflexivity|]. cbn [clean_pats].
-  pose proof (clear_ref_mut_flat p) as H. destruct (clear_ref_mut p) as [p'|].
-  - destruct (clean_pats r) as [r'|].
-    + cbn [flat_arguments]. rewrite H, IH. reflexivity.
-    + cbn [flat_arguments]. rewrite <- IH. destruct (flat_pat p); reflexivity.
-  - cbn [flat_arguments]. rewrite H. reflexivity.
+  induction ps as [|[p t] r IH]; intros ps' seen H; cbn [clean_pats] in H.
+  - injection H as <-. reflexivity.
+  - pose proof (clear_ref_mut_flat p) as F. pose proof (clear_ref_mut_ident p) as I.
+    destruct (clear_ref_mut p) as [p'|]; [|discriminate]. destruct (clean_pats r) as [r'|] eqn:E; [|discriminate].
+    injection H as <-. cbn [flat_args_from]. rewrite F, (I p' eq_refl).
+    destruct (flat_pat p); try reflexivity. destruct (smem s seen); [reflexivity|].
+    destruct (negb (is_ident p) && smem s reserved_flat); [reflexivity|]. rewrite (IH r' (s :: seen) eq_refl). reflexivity.
+Qed.
+
+Lemma clean_none_not_ok : forall (ps : params), clean_pats ps = None -> forall seen qs, flat_args_from seen ps <> AOk qs.
+Proof.
+  induction ps as [|[p t] r IH]; intros H seen qs; cbn [clean_pats] in H; [discriminate|].
+  pose proof (clear_ref_mut_flat p) as F. cbn [flat_args_from].
+  destruct (clear_ref_mut p) as [p'|].
+  - destruct (clean_pats r) as [r'|]; [discriminate|].
+    destruct (flat_pat p); try discriminate. destruct (smem s seen); [discriminate|].
+    destruct (negb (is_ident p) && smem s reserved_flat); [discriminate|].
+    destruct (flat_args_from (s :: seen) r) eqn:E; try discriminate. exfalso. exact (IH eq_refl _ _ E).
+  - rewrite F. discriminate.
+Qed.
+
+Theorem live_args_ok : forall (ps : params) qs, live_args ps = AOk qs <-> flat_arguments ps = AOk qs.
+Proof.
+  intros ps qs. unfold live_args, flat_arguments. destruct (clean_pats ps) as [ps'|] eqn:E.
+  - rewrite (clean_flat_from ps ps' [] E). tauto.
+  - split; [discriminate|]. intros H. exfalso. exact (clean_none_not_ok ps E _ _ H).
 Qed.
 
 (* one identifier per parameter, same position, same type *)
-Theorem flat_positions : forall (ps : params) qs, flat_arguments ps = Some qs ->
+Lemma flat_from_positions : forall (ps : params) seen qs, flat_args_from seen ps = AOk qs ->
   List.length qs = List.length ps /\ map snd qs = map snd ps /\
   forall i p t, nth_error ps i = Some (p, t) -> exists s, flat_pat p = FName s /\ nth_error qs i = Some (s, t).
 Proof.
-  induction ps as [|[p t] r IH]; intros qs H; cbn [flat_arguments] in H.
+  induction ps as [|[p t] r IH]; intros seen qs H; cbn [flat_args_from] in H.
   - injection H as <-. repeat split; auto. intros [|i] p t H; discriminate H.
-  - destruct (flat_pat p) as [s| |] eqn:E; try discriminate. destruct (flat_arguments r) as [q|]; [|discriminate].
-    injection H as <-. destruct (IH q eq_refl) as (L & M & N). cbn. repeat split; [congruence|congruence|].
+  - destruct (flat_pat p) as [s| |] eqn:E; try discriminate. destruct (smem s seen); [discriminate|].
+    destruct (negb (is_ident p) && smem s reserved_flat); [discriminate|].
+    destruct (flat_args_from (s :: seen) r) as [q| |] eqn:Er; try discriminate.
+    injection H as <-. destruct (IH _ q Er) as (L & M & N). cbn. repeat split; [congruence|congruence|].
     intros [|i] p0 t0 Hn; cbn in Hn.
     + injection Hn as <- <-. exists s. auto.
     + exact (N i p0 t0 Hn).
 Qed.
 
-(* the flattening succeeds exactly on the documented pattern forms *)
-Theorem flat_total : forall ps : params,
-  flat_arguments ps = None <-> forallb (fun q => supported_param (fst q)) ps = false.
+Lemma flat_from_names : forall (ps : params) seen qs, flat_args_from seen ps = AOk qs -> map fst qs = names ps.
 Proof.
-  induction ps as [|[p t] r IH]; cbn [flat_arguments forallb fst]; [split; discriminate|].
-  rewrite flat_pat_spec. unfold flat_spec, supported_param.
-  destruct (supported p); cbn; [|split; reflexivity].
-  destruct (is_rest p); cbn; [split; reflexivity|].
-  destruct (flat_arguments r); cbn.
-  - split; [discriminate|]. intros H. apply IH in H. discriminate.
-  - split; [|reflexivity]. intros _. apply IH. reflexivity.
-Qed.
-
-Theorem flat_names : forall (ps : params) qs, flat_arguments ps = Some qs ->
-  map fst qs = map (fun q => spec_name (fst q)) ps.
-Proof.
-  induction ps as [|[p t] r IH]; intros qs H; cbn [flat_arguments] in H.
+  induction ps as [|[p t] r IH]; intros seen qs H; cbn [flat_args_from] in H.
   - injection H as <-. reflexivity.
   - rewrite flat_pat_spec in H. unfold flat_spec in H. destruct (supported p); [|discriminate].
-    destruct (is_rest p); [discriminate|]. destruct (flat_arguments r) as [q|]; [|discriminate].
-    injection H as <-. cbn. rewrite (IH q eq_refl). reflexivity.
+    destruct (is_rest p); [discriminate|]. destruct (smem (spec_name p) seen); [discriminate|].
+    destruct (negb (is_ident p) && smem (spec_name p) reserved_flat); [discriminate|].
+    destruct (flat_args_from (spec_name p :: seen) r) as [q| |] eqn:Er; try discriminate.
+    injection H as <-. cbn. rewrite (IH _ q Er). reflexivity.
+Qed.
+
+(* the repaired flattening succeeds exactly when every pattern is of a documented form, the identifiers are pairwise distinct
+   (and new w.r.t. [seen]) and no flattened pattern produces a reserved name; otherwise it is a diagnostic *)
+Definition ok_params (seen : list string) (ps : params) : Prop :=
+  forallb (fun q => supported_param (fst q)) ps = true /\ NoDup (names ps) /\ (forall x, In x (names ps) -> ~ In x seen) /\ no_flat_reserved ps.
+
+Theorem flat_from_ok_iff : forall (ps : params) seen, (exists qs, flat_args_from seen ps = AOk qs) <-> ok_params seen ps.
+Proof.
+  unfold ok_params, no_flat_reserved. induction ps as [|[p t] r IH]; intros seen.
+  - cbn. split; [intros _; split; [reflexivity|]; split; [constructor|]; split; [intros x []|constructor]|intros _; eauto].
+  - cbn [flat_args_from forallb names map fst]. rewrite flat_pat_spec. unfold flat_spec, supported_param.
+    destruct (supported p); cbn [andb]; [|split; [intros (qs & H); discriminate|intros (H & _); discriminate]].
+    destruct (is_rest p); cbn [negb andb]; [split; [intros (qs & H); discriminate|intros (H & _); discriminate]|].
+    destruct (smem (spec_name p) seen) eqn:S.
+    { split; [intros (qs & H); discriminate|]. intros (_ & _ & D & _). exfalso. apply (D (spec_name p)); [left; reflexivity|apply smem_In, S]. }
+    apply smem_false in S.
+    destruct (is_ident p) eqn:Ii; cbn [negb andb].
+    + specialize (IH (spec_name p :: seen)). split.
+      * intros (qs & H). destruct (flat_args_from (spec_name p :: seen) r) as [q| |] eqn:Er; try discriminate.
+        destruct (proj1 IH (ex_intro _ q eq_refl)) as (A1 & A2 & A3 & A4).
+        split; [exact A1|]. split; [|split].
+        -- constructor; [|exact A2]. intros Hin. apply (A3 _ Hin). left. reflexivity.
+        -- intros x [<-|Hx]; [exact S|]. intros Hs. apply (A3 x Hx). right. exact Hs.
+        -- constructor; [cbn; congruence|exact A4].
+      * intros (A1 & A2 & A3 & A4). inversion A2 as [|? ? N1 N2]; subst. inversion A4 as [|? ? R1 R2]; subst.
+        destruct (proj2 IH) as (q & Hq).
+        { split; [exact A1|]. split; [exact N2|]. split; [|exact R2]. intros x Hx [<-|Hs]; [contradiction|]. apply (A3 x); [right; exact Hx|exact Hs]. }
+        rewrite Hq. eauto.
+    + destruct (smem (spec_name p) reserved_flat) eqn:R.
+      { split; [intros (qs & H); discriminate|]. intros (_ & _ & _ & F). inversion F as [|? ? R1 R2]; subst. exfalso. apply (R1 Ii). apply smem_In, R. }
+      apply smem_false in R. specialize (IH (spec_name p :: seen)). split.
+      * intros (qs & H). destruct (flat_args_from (spec_name p :: seen) r) as [q| |] eqn:Er; try discriminate.
+        destruct (proj1 IH (ex_intro _ q eq_refl)) as (A1 & A2 & A3 & A4).
+        split; [exact A1|]. split; [|split].
+        -- constructor; [|exact A2]. intros Hin. apply (A3 _ Hin). left. reflexivity.
+        -- intros x [<-|Hx]; [exact S|]. intros Hs. apply (A3 x Hx). right. exact Hs.
+        -- constructor; [cbn; intros _; exact R|exact A4].
+      * intros (A1 & A2 & A3 & A4). inversion A2 as [|? ? N1 N2]; subst. inversion A4 as [|? ? R1 R2]; subst.
+        destruct (proj2 IH) as (q & Hq).
+        { split; [exact A1|]. split; [exact N2|]. split; [|exact R2]. intros x Hx [<-|Hs]; [contradiction|]. apply (A3 x); [right; exact Hx|exact Hs]. }
+        rewrite Hq. eauto.
+Qed.
+
+(* the identifiers of a successful flattening are pairwise distinct - unconditionally *)
+Theorem flat_distinct : forall (ps : params) qs, flat_arguments ps = AOk qs -> NoDup (map fst qs) /\ no_flat_reserved ps.
+Proof.
+  intros ps qs H. destruct (proj1 (flat_from_ok_iff ps []) (ex_intro _ qs H)) as (_ & N & _ & R).
+  rewrite (flat_from_names ps [] qs H). auto.
 Qed.
 End Args.
 
@@ -282,12 +357,10 @@ Qed.
 
 Section Distinct.
 Context {T : Type}.
-Theorem flat_distinct_guarded : forall (ps : list (pat * T)) qs, flat_arguments ps = Some qs ->
-  plain_words (map fst ps) = true -> NoDup (flat_map binders (map fst ps)) -> NoDup (map fst qs).
+Lemma names_distinct_guarded : forall (ps : list (pat * T)), forallb (fun q => supported_param (fst q)) ps = true ->
+  plain_words (map fst ps) = true -> NoDup (flat_map binders (map fst ps)) -> NoDup (names ps).
 Proof.
-  intros ps qs H P N. rewrite (flat_names ps qs H).
-  assert (S : forallb (fun q => supported_param (fst q)) ps = true).
-  { destruct (forallb (fun q => supported_param (fst q)) ps) eqn:E; [reflexivity|]. apply flat_total in E. congruence. }
+  intros ps S P N. unfold names.
   unfold plain_words in P. rewrite forallb_forall in P, S.
   assert (W : forall q, In q ps -> words (fst q) = binders (fst q)).
   { intros q Hq. apply words_binders, P, in_map, Hq. }
@@ -308,33 +381,40 @@ Proof.
     + rewrite Forall_forall in NE. apply NE, in_map_iff. eauto.
     + rewrite Forall_forall in NE. apply NE, in_map_iff. eauto.
 Qed.
+
+(* no spurious diagnostic: documented patterns, distinct `_`-free binders, no empty composite pattern, no flattened reserved name *)
+Theorem flat_no_spurious : forall (ps : list (pat * T)), forallb (fun q => supported_param (fst q)) ps = true ->
+  plain_words (map fst ps) = true -> NoDup (flat_map binders (map fst ps)) -> no_flat_reserved ps ->
+  exists qs, flat_arguments ps = AOk qs.
+Proof.
+  intros ps S P N R. apply (flat_from_ok_iff ps []). repeat split; auto.
+  apply names_distinct_guarded; assumption.
+Qed.
 End Distinct.
 
-(* the unguarded statement is false: `(a, b)` and `a_b` are distinct binders flattened to the same identifier *)
+(* the former counterexamples of "distinct binders give distinct identifiers" are now naming-conflict diagnostics *)
 Definition collide_witness : list (pat * unit) :=
   [(PTuple [PIdent false false "a"; PIdent false false "b"], tt); (PIdent false false "a_b", tt)].
-Lemma flat_distinct_refuted : exists (ps : list (pat * unit)) qs, flat_arguments ps = Some qs /\
-  NoDup (flat_map binders (map fst ps)) /\ ~ NoDup (map fst qs).
-Proof.
-  exists collide_witness, [("a_b", tt); ("a_b", tt)]. split; [vm_compute; reflexivity|]. split.
-  - cbn. repeat constructor; cbn; intuition discriminate.
-  - cbn. intros N. inversion N; subst. apply H1. left. reflexivity.
-Qed.
-(* two empty composite patterns `(..)`, `[..]` both become `__` *)
 Definition collide_witness2 : list (pat * unit) := [(PTuple [PRest], tt); (PSlice [PRest], tt)].
-Lemma flat_distinct_refuted2 : exists (ps : list (pat * unit)) qs, flat_arguments ps = Some qs /\
-  NoDup (flat_map binders (map fst ps)) /\ ~ NoDup (map fst qs).
-Proof.
-  exists collide_witness2, [("__", tt); ("__", tt)]. split; [vm_compute; reflexivity|]. split.
-  - cbn. constructor.
-  - cbn. intros N. inversion N; subst. apply H1. left. reflexivity.
-Qed.
+Definition collide_witness3 : list (pat * unit) := [(PTuple [PIdent false false "inter"; PIdent false false "send"], tt)].
+Lemma collide_diag : live_args collide_witness = AConflict "a_b" /\ NoDup (flat_map binders (map fst collide_witness))
+  /\ live_args collide_witness2 = AConflict "__" /\ live_args collide_witness3 = AConflict "inter_send".
+Proof. repeat split; try (vm_compute; reflexivity). cbn. repeat constructor; cbn; intuition discriminate. Qed.
 
-(* the hypotheses of the guarded theorem are satisfiable by a non-trivial parameter list *)
+(* a plain parameter named `actor` (the former internal binder) is an ordinary identifier *)
+Example actor_is_plain : live_args [(PIdent false false "actor", tt); (PTuple [PIdent false true "actor2"], tt)] = AOk [("actor", tt); ("actor2", tt)].
+Proof. vm_compute. reflexivity. Qed.
+
+(* the hypotheses of flat_no_spurious are satisfiable by a non-trivial parameter list *)
 Example flat_distinct_example :
   let ps := [(PTuple [PIdent true true "k"; PRest; PTupleStruct "T" [PIdent false false "actor"]], 1);
              (PStruct "P" ["a"; "b"] [PIdent false false "a"; PSlice [PIdent false true "c"; PRest]] true, 2);
              (PIdent false true "msg", 3)] in
-  flat_arguments ps = Some [("k_actor", 1); ("a_c", 2); ("msg", 3)]
-  /\ plain_words (map fst ps) = true /\ NoDup (flat_map binders (map fst ps)).
-Proof. cbn. repeat split. repeat constructor; cbn; intuition discriminate. Qed.
+  flat_arguments ps = AOk [("k_actor", 1); ("a_c", 2); ("msg", 3)]
+  /\ forallb (fun q => supported_param (fst q)) ps = true
+  /\ plain_words (map fst ps) = true /\ NoDup (flat_map binders (map fst ps)) /\ no_flat_reserved ps.
+Proof.
+  cbn. repeat split.
+  - repeat constructor; cbn; intuition discriminate.
+  - unfold no_flat_reserved. repeat constructor; cbn; intuition discriminate.
+Qed.
